@@ -31,6 +31,7 @@ import CatVerif.Proofs.Setters.HoldSet
 import CatVerif.Proofs.Readers.Frame
 import CatVerif.Proofs.Readers.Name
 import CatVerif.Proofs.Readers.Ack
+import CatVerif.Proofs.Steps.Leaves
 namespace Cat
 open St
 
@@ -142,5 +143,9 @@ theorem C20_framing_generated (D : Desc) :
     waitTestAcknowledge = Gen.wait_test_acknowledge :=
   ⟨errorState_generated, processIdleState_generated D, parsePrefix_generated, parseCommand_generated,
    waitReadAcknowledge_generated D, waitTestAcknowledge_generated⟩
+
+/-- the line break of every response is chosen from `cr_flag` alone: the offset into the literal "\\r\\n" is the
+transliteration of `get_new_line_chars` (translator item T22) -/
+theorem C20_newline_generated (s : St) : nlOff s = Gen.get_new_line_chars s := nlOff_generated s
 
 end Cat
